@@ -153,7 +153,7 @@ def load_known(pid):
 
 
 def write_replay(pid, payload):
-    d = os.path.join(ROOT, 'replays')
+    d = os.environ.get('VERIF_REPLAY_DIR') or os.path.join(ROOT, 'replays')
     os.makedirs(d, exist_ok=True)
     body = json.dumps(payload, indent=1, sort_keys=True, default=str)
     h = hashlib.sha1(body.encode()).hexdigest()[:10]
@@ -164,7 +164,7 @@ def write_replay(pid, payload):
 
 
 def write_evidence(pid, ev):
-    d = os.path.join(ROOT, 'evidence')
+    d = os.environ.get('VERIF_EVIDENCE_DIR') or os.path.join(ROOT, 'evidence')
     os.makedirs(d, exist_ok=True)
     with open(os.path.join(d, pid + '.json'), 'w') as f:
         json.dump(ev, f, indent=1, default=str)
